@@ -27,7 +27,7 @@ from lib.kvlib import *
 PROP = "C13"
 # TRUE: the model of the source expects a panic for a delay shorter than one frame (as delay.rs does today).
 # Only affects the drift comparison, never the verdict on recorded traces.
-SUBFRAME_PANICS = True
+SUBFRAME_PANICS = False
 # scenario classes that reproduce defects already listed in DESIGN.md 9; a class is judged only once
 # known_findings.json has an entry with that id for C13 (open: KNOWN-FINDING, fixed: judged like everything else)
 DEFECT_CLASSES = {"subframe_delay": "D7", "drive_silent": "D8"}
